@@ -396,9 +396,23 @@ def rule_forwarding(ctx, rid, r):
                 ctx.ob(rid, hop, True, loc(caller, c), "forwarded unchanged (allow-listed coercions only)")
     ctx.floor(rid, "forwarding hops", n, 12)
     # the engine uses its worker_count parameter for the pool
-    sp = E.lifecycle(m, er).spawn_loops
+    lc_ = E.lifecycle(m, er)
+    sp = lc_.spawn_loops
     a = E._range_arg(sp[0]) if len(sp) == 1 else None
     ok = a is not None and is_name(a, "worker_count")
+    if a is not None and isinstance(a, ast.Name) and not ok:
+        # another local holding the parameter, possibly through a value-preserving coercion (evaluated): follow the reaching definitions
+        from ..cfg import value_sources as _vs
+        leaves = _vs(eng, lc_.g, a.id, sp[0], eng.module)
+        ok = bool(leaves)
+        for lf in leaves:
+            if lf == ("param", "worker_count"):
+                continue
+            v_ = lf[1] if lf[0] == "expr" else None
+            if isinstance(v_, ast.Call) and len(v_.args) == 1 and not v_.keywords and is_name(v_.args[0], "worker_count") and v_ in eng.own_calls() \
+                    and (cg_ := m.callee_funcs(eng, v_)) and all(is_value_preserving_coercion(m, g_, "worker_count") for g_ in cg_):
+                continue
+            ok = False
     ctx.ob(rid, f"{eng.short}/pool-size", ok, loc(eng, sp[0] if sp else None), "as many threads as worker_count" if ok else
            "the number of threads started is not the worker_count parameter", norm(a) if a is not None else "")
     _check_source_var(ctx, rid, m, eng, "worker_count", f"{eng.short}.worker_count")
@@ -717,11 +731,12 @@ def rule_run_uses_returned_pair(ctx, rid, r):
         st = stmt_of(run.module, c)
         ok = isinstance(st, ast.Assign) and isinstance(st.targets[0], ast.Tuple) and len(st.targets[0].elts) == 2 and \
             all(isinstance(x, ast.Name) for x in st.targets[0].elts)
-        ctx.ob(rid, f"{run.short}/destructures-result", ok, loc(run, c), "run rebinds (plan, output node) from the transformation" if ok
-               else "run ignores part of the transformation's result", norm(st)[:100])
-        if not ok:
+        # ... or keeps the pair in one variable that is taken apart later (which elements reach the execution is decided below)
+        via_tmp = isinstance(st, ast.Assign) and len(st.targets) == 1 and isinstance(st.targets[0], ast.Name) and st.value is c
+        ctx.ob(rid, f"{run.short}/destructures-result", ok or via_tmp, loc(run, c), "run rebinds (plan, output node) from the transformation" if ok
+               else "run keeps the transformation's result pair in a variable" if via_tmp else "run ignores part of the transformation's result", norm(st)[:100])
+        if not (ok or via_tmp):
             continue
-        pn, on = (x.id for x in st.targets[0].elts)
         from ..cfg import value_sources
         g_ = CFG(run, may_raise=any_call_may_raise)
         for x in calls_to(m, run, r.run_physical):
